@@ -3,19 +3,19 @@
    functions the C16 theorems are about.  Each proof is unfolding plus a case analysis on the
    machine operations; when the Rust source changes meaning, the lemma named in the failure
    message stops being provable (and a function that leaves the translator's subset is not
-   emitted at all, so its lemma does not even type-check).
+   emitted at all, so its lemma does not even type-check).  When the script written against
+   today's term shape fails, gen_equiv (Proofs/GenTac.v) tries a shape-independent semantic
+   finisher before declaring the lemma broken, so `if`->`match`, commuted + * min max, flipped
+   or negated comparisons and exchanged branches do not raise a false alarm.
    The last section ties the generated definitions to the ideal-arithmetic models used by
    C12 (Model/MatrixViews.v), C02 (Model/Views.v) and C01 (Model/Shape.v). *)
 From Coq Require Import List ZArith NArith Bool Arith Lia.
 From EasyML Require Import Base.Sx Model.Shape Model.U64 Model.Fallible Gen.Arith.
 Import ListNotations.
+From EasyML Require Import Proofs.GenTac.
 Open Scope N_scope.
 
-(* solve an equivalence or fail with a message that names it *)
-Tactic Notation "gen_equiv" ident(name) "by" tactic(t) :=
-  first [ solve [ t ]
-        | fail 1 "GENERATED-EQUIVALENCE-BROKEN" name
-                 ": the definition translated from the Rust source no longer equals the hand-written model" ].
+(* gen_equiv: Proofs/GenTac.v (the specific script, then the shape-independent finisher) *)
 
 Ltac case_all :=
   repeat match goal with
